@@ -237,6 +237,9 @@ def run(ctx):
     # D13: the iteration space comes from the text.  The handlers of `.n` / `.m` walk the tokens of the line with a cursor: a
     # value token that is consumed without being stepped over is read again as the plain constant n (`.n max 16` then makes the
     # back ends unroll 16 elements whatever ex->n says) - rule shared with C15 (rules/c15.py d6_token_cursor)
+    # D14: native loads/stores address memory through ex->arrays[variable]; for a variable that is no array the compile must fail
+    import importlib
+    importlib.import_module("rules.c05").array_operand_checked(db, rep, "D14-ARRAY-OPERAND-CHECKED")
     from rules.c15 import d6_token_cursor
     SETN = ("orc_program_set_constant_n", "orc_program_set_n_multiple", "orc_program_set_n_minimum", "orc_program_set_n_maximum",
             "orc_program_set_constant_m", "orc_program_set_2d")
